@@ -465,6 +465,8 @@ def rule_n(R, ctx, rid="C12.n"):
 
 def check(ctx, R):
     R.run("C12.n", rule_n, ctx)
+    from . import preds as _preds
+    R.run("C12.p", lambda R, c: _preds.rule(R, c, "C12.p", ["branch_eq"]), ctx)
     R.run("C12.l", rule_l, ctx)
     R.run("C12.m", rule_m, ctx)
     R.run("C12.a", rule_a, ctx)
